@@ -211,8 +211,15 @@ StepReset(P, m, op) ==
 StepBin(P, m, op) ==
   LET x == m.env[op.a[1]]  y == m.env[op.a[2]] IN
   IF BinNeedsNonZero(op.n) /\ y = 0 THEN Fault(m, "DivByZero")
+  ELSE IF op.n = "arith.andi" /\ ~Narrow(op.w) /\ (x < 0 \/ y < 0) /\ ((x >= 0 /\ x < 2^30) \/ (y >= 0 /\ y < 2^30))
+       THEN (* a non-negative operand below 2^30 masks the low bits of the other one (two's complement) *)
+            Adv(Def(P, m, op.r, <<(x % (2^30)) & (y % (2^30))>>))
   ELSE IF BinIsBitwise(op.n) /\ ~Narrow(op.w) /\ (x < 0 \/ y < 0) THEN Fault(m, "Unsupported:bitwise-neg")
   ELSE IF op.n \in {"arith.shli", "arith.shrsi", "arith.shrui"} /\ (y < 0 \/ y > 30) THEN Fault(m, "Unsupported:shift")
+  ELSE IF op.n = "arith.shli" /\ ~Narrow(op.w) /\ (x < 0 \/ x >= 2^(30 - y))
+       THEN StepPure(P, m, op)   \* would leave TLC's 32-bit integers: the result is an uninterpreted value
+  ELSE IF BinIsBitwise(op.n) /\ ~Narrow(op.w) /\ (x >= UFBase \/ y >= UFBase) THEN StepPure(P, m, op)
+  ELSE IF op.n = "arith.ori" /\ ~Narrow(op.w) /\ (x >= UFBase \/ y >= UFBase) THEN StepPure(P, m, op)
   ELSE Adv(Def(P, m, op.r, <<Wrap(BinOp(op.n, x, y, op.w), op.w)>>))
 
 StepCast(P, m, op) ==
